@@ -249,7 +249,7 @@ fn replay(ctx: &Ctx, path: &str, rep: &mut Report, m: &mut M) {
 
 pub fn run(ctx: &Ctx) {
     let mut rep = Report::new("C01", &ctx.tier, ctx.seed);
-    rep.rule = "every message length 0..=600, every footer length and every assertion length 0..=600, and lengths around the powers of two up to 2^18, once per backend and purpose; every sealing entry point (seal / encrypt / encrypt_with_aad / sign / sign_with_aad) on all six backends, through V::nonce(): payload lengths at every AES/ChaCha block boundary, footers (empty, JSON, '.', NUL, 33 random bytes), assertions (empty / non-empty where supported), keys from random(), From<[u8;32]> and parsed bytes incl. boundary scalars; RustCrypto backends under a scripted getrandom so that model and implementation must be bit-equal; a case is non-trivial when the token was produced by the library's own nonce path and round-tripped; distinct = (backend, purpose, length class, footer class, assertion class, key source, entry point)".into();
+    rep.rule = "every message length 0..=600, every footer length and every assertion length 0..=600, and lengths around the powers of two up to 2^18, once per backend and purpose; every sealing entry point (seal / encrypt / encrypt_with_aad / sign / sign_with_aad) on all six backends, through V::nonce(): payload lengths at every AES/ChaCha block boundary, footers (empty, JSON, '.', NUL, 33 random bytes), assertions (empty / non-empty where supported), keys from random(), From<[u8;32]> and parsed bytes incl. boundary scalars; a payload type with a non-empty SUFFIX sealed and unsealed on every backend and purpose; RustCrypto backends under a scripted getrandom so that model and implementation must be bit-equal; a case is non-trivial when the token was produced by the library's own nonce path and round-tripped; distinct = (backend, purpose, length class, footer class, assertion class, key source, entry point)".into();
     let mut m = M::new(&ctx.model);
     if let Some(p) = &ctx.replay {
         replay(ctx, p, &mut rep, &mut m);
@@ -382,6 +382,30 @@ pub fn run(ctx: &Ctx) {
                 }
                 if rep.violations.len() >= 20 {
                     break;
+                }
+            }
+        }
+        // payload types with a non-empty SUFFIX (header "v4x.local."): sealing and unsealing build the header separately
+        // (sign / verify even in separate functions), so the round trip is its own case
+        for purpose in ["local", "public"] {
+            let kp = &kps[0];
+            let (sealk, unsealk) = if purpose == "local" { let k = g.bytes(32); (k.clone(), k) } else { (kp.sk.clone(), kp.pk.clone()) };
+            let a: Vec<u8> = if b.aad { b"ia".to_vec() } else { vec![] };
+            for len in [0usize, 1, 21, 64, 300] {
+                rep.evaluations += 1;
+                let msg = content(&mut g, len);
+                let replay = json!({"op": "suffix", "backend": b.name, "purpose": purpose, "key": hex::encode(&sealk), "m": hex::encode(&msg)});
+                match (b.seal_x)(purpose, &sealk, &msg, b"f", &a) {
+                    Ok(tx) => {
+                        if !tx.starts_with(&format!("{}x.{purpose}.", b.ver)) {
+                            rep.violation(&format!("c01.{}.{purpose}.suffix-header", b.name), format!("{} {purpose}: a token of a payload type with suffix \"x\" does not start with {}x.{purpose}.: {tx}", b.name, b.ver), replay.clone());
+                        }
+                        match (b.unseal_x)(purpose, &unsealk, &tx, &a) {
+                            Ok((m2, f2)) if m2 == msg && f2 == b"f" => rep.nontrivial(format!("suffix|{}|{purpose}|{}", b.name, len_class(len))),
+                            other => rep.violation(&format!("c01.{}.{purpose}.suffix-roundtrip", b.name), format!("{} {purpose}: a token of a payload type with suffix \"x\" ({len}-byte message) does not unseal under the same type: {:?}", b.name, other.map(|x| x.0.len())), replay.clone()),
+                        }
+                    }
+                    Err(e) => rep.violation(&format!("c01.{}.{purpose}.suffix-seal", b.name), format!("{} {purpose}: sealing a payload type with suffix \"x\" failed: {e}", b.name), replay.clone()),
                 }
             }
         }
